@@ -596,6 +596,14 @@ def _partial_cmp(m, a, c):
     x = deref(a[0])
     if isinstance(x, Adt) and x.path in m.facts.adts:
         return NOT_HANDLED
+    y = deref(a[1])
+    if isinstance(x, Adt) and isinstance(y, Adt) and x.path == y.path == "bitcoin::absolute::LockTime" and \
+            isinstance(deref(x.fields.get("0")), int) and isinstance(deref(y.fields.get("0")), int):
+        # rust-bitcoin: a block height and a UNIX time are not comparable (LOCK_TIME_THRESHOLD = 500_000_000)
+        u, v = deref(x.fields["0"]), deref(y.fields["0"])
+        if (u < 500000000) != (v < 500000000):
+            return NONE
+        return some(Adt(ORDERING, "Less" if u < v else ("Greater" if u > v else "Equal")))
     r = _cmp_vals(a[0], a[1])
     return Term("some", r) if isinstance(r, Term) else some(r)
 
@@ -2745,6 +2753,17 @@ def _ascii_fn(name):
             "is_ascii_lowercase": lambda: asc and ch.islower(),
             "is_ascii_uppercase": lambda: asc and ch.isupper(),
             "is_ascii_whitespace": lambda: ch in " \t\n\x0c\r",
+            "is_ascii_control": lambda: ord(ch) < 32 or ord(ch) == 127,
+            "is_ascii_graphic": lambda: 33 <= ord(ch) <= 126,
+            "is_ascii_punctuation": lambda: asc and 33 <= ord(ch) <= 126 and not ch.isalnum(),
+            # Unicode general category Cc: U+0000..U+001F and U+007F..U+009F
+            "is_control": lambda: ord(ch) < 32 or 127 <= ord(ch) <= 159,
+            "is_whitespace": lambda: ch.isspace(),
+            "is_alphabetic": lambda: ch.isalpha(),
+            "is_alphanumeric": lambda: ch.isalnum(),
+            "is_numeric": lambda: ch.isnumeric(),
+            "is_lowercase": lambda: ch.islower(),
+            "is_uppercase": lambda: ch.isupper(),
         }[name]()
         if isint and isinstance(res, str):
             return ord(res)
@@ -2754,9 +2773,11 @@ def _ascii_fn(name):
 
 for _nm in ["to_ascii_lowercase", "to_ascii_uppercase", "is_ascii", "is_ascii_digit", "is_ascii_hexdigit",
             "is_ascii_alphabetic", "is_ascii_alphanumeric", "is_ascii_lowercase", "is_ascii_uppercase",
-            "is_ascii_whitespace"]:
+            "is_ascii_whitespace", "is_ascii_control", "is_ascii_graphic", "is_ascii_punctuation"]:
     TABLE["std::char::methods::<impl char>::" + _nm] = _ascii_fn(_nm)
     TABLE["core::num::<impl u8>::" + _nm] = _ascii_fn(_nm)
+for _nm in ["is_control", "is_whitespace", "is_alphabetic", "is_alphanumeric", "is_numeric", "is_lowercase", "is_uppercase"]:
+    TABLE["std::char::methods::<impl char>::" + _nm] = _ascii_fn(_nm)
 
 
 @reg("std::array::<impl std::convert::TryFrom<&[T]> for [T; N]>::try_from",
